@@ -5,6 +5,7 @@ CONSTANTS
   DevMultiDrop = TRUE
   DevIncomingDrop = TRUE
   DevManagedEmpty = TRUE
+  DevPollMultiLen = TRUE
   Part = "stream"
   Feat = {"split"}
   Sizes = {0, 1}
@@ -15,6 +16,6 @@ CONSTANTS
   Conns = {1, 2, 3}
   DgSocks = {"a", "b", "c"}
   MaxDg = 3
-SPECIFICATION Spec
+SPECIFICATION SpecStream
 VIEW mcview
 INVARIANTS TypeOk StreamPrefix Conservation StreamExact EofComplete ZcOk HandleOk
